@@ -706,6 +706,27 @@ func checkMemoryFileTypestate(c *Ctx, r *Report, pkg string) {
 					}
 				}
 			}
+			if !held {
+				// a helper that is only ever called with the slice lock held in write mode
+				callers := c.CallsTo(funcName(fn))
+				all := len(callers) > 0
+				for _, cs := range callers {
+					if c.isFixture(cs.Caller) {
+						continue
+					}
+					cset := locksets(cs.Caller, lockState{})
+					okc := false
+					for k, m := range cset[cs.Instr.(ssa.Instruction)] {
+						if k.mutex == "sliceMu" && m >= 2 {
+							okc = true
+						}
+					}
+					if !okc {
+						all = false
+					}
+				}
+				held = all
+			}
 			r.Check(held, r7, fn, "store *data", st, "under sliceMu write lock", "the shared slice header is replaced without holding sliceMu in write mode")
 		})
 	}
